@@ -93,7 +93,7 @@ def ShapeFirst (a : Nat) (L : List HTree) : Prop :=
     (∀ k ∈ l', k.handle ≠ a) ∧ (∀ k ∈ r', k.handle ≠ a) ∧
     (∀ k ∈ l', k.value.isNormal = false) ∧ (∀ k ∈ r', k.value.isNormal = true)
 
-theorem insertFirstNormal_split (t : HTree) : ∀ (l' r' : List HTree),
+theorem repl_insertFirstNormal_split (t : HTree) : ∀ (l' r' : List HTree),
     (∀ k ∈ l', k.value.isNormal = false) → (∀ k ∈ r', k.value.isNormal = true) →
     insertFirstNormal t (l' ++ r') = l' ++ t :: r'
   | [], [] => fun _ _ => rfl
@@ -105,13 +105,13 @@ theorem insertFirstNormal_split (t : HTree) : ∀ (l' r' : List HTree),
     intro hl hr
     simp only [List.cons_append, insertFirstNormal]
     rw [if_neg (by rw [hl k List.mem_cons_self]; exact Bool.false_ne_true),
-      insertFirstNormal_split t l' r' (fun k' hk' => hl k' (List.mem_cons_of_mem _ hk')) hr]
+      repl_insertFirstNormal_split t l' r' (fun k' hk' => hl k' (List.mem_cons_of_mem _ hk')) hr]
 
 theorem ShapeFirst.ins {a : Nat} {L : List HTree} (t : HTree) (h : ShapeFirst a L) :
     insertFirstNormal t (dropTop a L) = replaceTop a (fun _ => [t]) L := by
   obtain ⟨l', A', r', e, hA, l2, r2, ln, rn⟩ := h
   subst e
-  rw [dropTop_mid hA l2 r2, replaceTop_mid hA l2, insertFirstNormal_split t l' r' ln rn]
+  rw [dropTop_mid hA l2 r2, replaceTop_mid hA l2, repl_insertFirstNormal_split t l' r' ln rn]
   simp
 
 theorem ShapeFirst.map {a : Nat} {L : List HTree} {φ : HTree → HTree} (hφ : KidMap φ) (h : ShapeFirst a L) :
